@@ -226,7 +226,29 @@ def check(prog, ctx):
         for c_ in cs:
             out += list(c_.args) if isinstance(c_, sp.And) else [c_]
         return out
-    acc_rets = [o for o in rets if any(isinstance(c_, (sp.Lt, sp.Le)) and c_.rhs == acc for c_ in flat(o.state.conds[n0:]))]
+    FLOOR_MAX = 5e-15
+
+    def acc_bound(rhs):
+        """None if `rhs` is not the accuracy; else the list of floor terms f in a bound max(xAccuracy, f, ...).  A floor that is a
+        small multiple of the magnitude of the points (the spacing of doubles there) lies below every accuracy the property
+        quantifies over (xAccuracy >= 1e-14 |root|), so max(xAccuracy, floor) IS xAccuracy on that domain."""
+        if rhs == acc:
+            return []
+        if isinstance(rhs, sp.Max) and acc in rhs.args:
+            return [a_ for a_ in rhs.args if a_ != acc]
+        return None
+
+    def floor_verdict(f_, points):
+        """'ok' | 'large' | 'unknown' for one floor term c * |t| (t a point of the bracket / an iterate, or a max of such magnitudes)"""
+        c_, rest = f_.as_coeff_Mul()
+        mags = list(rest.args) if isinstance(rest, sp.Max) else [rest]
+        for m_ in mags:
+            if not (isinstance(m_, sp.Abs) and any(num_zero(m_.args[0] - t_) for t_ in points if isinstance(t_, sp.Basic))):
+                return 'unknown'
+        if not c_.is_number or c_ <= 0:
+            return 'unknown'
+        return 'ok' if float(c_) <= FLOOR_MAX else 'large'
+    acc_rets = [o for o in rets if any(isinstance(c_, (sp.Lt, sp.Le)) and acc_bound(c_.rhs) is not None for c_ in flat(o.state.conds[n0:]))]
     ctx.decide('C02.e', 'stopping-test', fn, bool(acc_rets) and zero_ret, 'the loop returns on a distance test against xAccuracy and on an exact zero f(x4) == 0 (returning x4)',
                'stopping test not recognised (returning paths that compare a distance with xAccuracy: %d, exact-zero return ok=%s)' % (len(acc_rets), zero_ret))
     # ---- C02.f what the accepting test certifies
@@ -266,8 +288,21 @@ def check(prog, ctx):
     certified_all = bool(acc_rets)
     for n_, o in enumerate(acc_rets):
         inst = 'accuracy-certificate' if len(acc_rets) == 1 else 'accuracy-certificate#%d' % n_
-        tests = [c_ for c_ in flat(o.state.conds[n0:]) if isinstance(c_, (sp.Lt, sp.Le)) and c_.rhs == acc]
+        tests = [c_ for c_ in flat(o.state.conds[n0:]) if isinstance(c_, (sp.Lt, sp.Le)) and acc_bound(c_.rhs) is not None]
         b1, b2 = bracket_of(o.state)
+        floors = [(f_, floor_verdict(f_, [x1, x2, x3, x4, b1, b2, xL, xR])) for c_ in tests for f_ in acc_bound(c_.rhs)]
+        if any(v_ == 'large' for f_, v_ in floors):
+            certified_all = False
+            big = [f_ for f_, v_ in floors if v_ == 'large'][0]
+            ctx.violated('C02.f', inst, fn, 'the accepting test compares with max(xAccuracy, %s): the floor exceeds %g times the magnitude of the points, so for a requested '
+                         'accuracy between 1e-14 |root| and that floor a bracket wider than the accuracy is accepted' % (str(big)[:80], FLOOR_MAX),
+                         witness={'floor': str(big)[:120], 'reproducer': 'Find_Root(x-1, 0, 3, 1e-13): the returned point is further than 1e-13 from 1'}, line=loop['l'])
+            continue
+        if any(v_ == 'unknown' for f_, v_ in floors):
+            certified_all = False
+            ctx.undecided('C02.f', inst, fn, 'accepting test compares with max(xAccuracy, %s): the second bound is not a recognised floating-point resolution floor'
+                          % [str(f_)[:80] for f_, v_ in floors if v_ == 'unknown'][:1], line=loop['l'])
+            continue
         pairs = [(x1, x2)] + ([(b1, b2)] if isinstance(b1, sp.Basic) and isinstance(b2, sp.Basic) else [])
         inside = lambda v_, u_, w_: any(num_zero(v_ - t_) for t_ in (u_, w_)) or \
             ({u_, w_} == {x1, x2} and any(num_zero(v_ - t_) for t_ in (x3, x4)))
